@@ -213,20 +213,29 @@ Proof. exact translated_buffers_are_model. Qed.
    impl Display for DisplayBuffer / NullFormatter / EffectsDisplay / Reset / StyleDisplay / Style,
    Style::{fmt_to, render, render_reset, write_to, write_reset_to}, Effects::write_to, DisplayBuffer::write_to,
    Color::write_{fg,bg,underline}_to, the render_fg / render_bg of the three colour types, Reset::render, the From
-   impls of color.rs and `on` / `on_default`.  A Formatter is the hand model's [rn_fmt]; a translated `fmt`
+   impls of color.rs and `on` / `on_default`.  A Formatter is [rn_fmtr]: the hand model's [rn_fmt] over a sink that
+   answers every write_str from a script ([mkRnFmtr f []]: a sink that never fails, a String); a translated `fmt`
    answers the new formatter and the fmt::Result ([ok_fmt]: the hand model's formatter and Ok(())).
    [gr_format alternate flags fmt] = `format!("{:<flags>}", x)` for the translated Display impl [fmt] of x
    (an Err makes format! panic).  `&mut dyn io::Write` is the scripted writer of Spec/Io.v;
-   [wr_bufs w bufs] = write_all of the buffers in order, the first error stops. *)
+   [wr_bufs write w bufs] = the fragments handed to the sink in order, the first error stops ([write] is
+   Formatter::write_str or io::Write::write_all). *)
 
 (* Style::fmt_to (the central rendering function) *)
 Theorem c05_translated_fmt_to_is_model :
-  forall s f, gr_style_fmt_to s f = ok_fmt (rn_style_fmt_to s f).
+  forall s f, gr_style_fmt_to s (mkRnFmtr f []) = ok_fmt (rn_style_fmt_to s f).
 Proof. exact gr_style_fmt_to_eq. Qed.
+
+(* ... on ANY formatter (a sink that fails at some write_str): the fragments are the buffers of the hand model's
+   write_to -- their concatenation is what render() shows, c05_paths_agree --, each handed to write_str in
+   order; the first fmt::Error is returned and nothing more is written *)
+Theorem c05_translated_fmt_to_any_sink :
+  forall s bufs f, rn_write_to s = Some bufs -> gr_style_fmt_to s f = Some (wr_bufs rn_fw_write_str f bufs).
+Proof. exact translated_fmt_to_any_sink. Qed.
 
 (* impl Display for Style, both branches of `f.alternate()` *)
 Theorem c05_translated_style_fmt_is_model :
-  forall s f, gr_style_fmt s f = ok_fmt (rn_style_fmt s f).
+  forall s f, gr_style_fmt s (mkRnFmtr f []) = ok_fmt (rn_style_fmt s f).
 Proof. exact gr_style_fmt_eq. Qed.
 
 (* format!("{:<flags>}", style): the hand model's [rn_display], the subject of c05_flags_irrelevant / c05_display_forms *)
@@ -296,12 +305,12 @@ Proof. exact translated_display_forms. Qed.
 (* Style::write_to on ANY writer (short writes, Interrupted, errors): the hand model's buffers, in order, each
    with write_all; the first error is returned and nothing more is written *)
 Theorem c05_translated_write_to_is_model :
-  forall s bufs w, rn_write_to s = Some bufs -> gr_style_write_to s w = Some (wr_bufs w bufs).
+  forall s bufs w, rn_write_to s = Some bufs -> gr_style_write_to s w = Some (wr_bufs w_write_all w bufs).
 Proof. exact translated_write_to_is_model. Qed.
 
 (* on a writer that never fails: equal to the hand model, a panic included *)
 Theorem c05_translated_write_to_accept_all :
-  forall s w, w_script w = [] -> gr_style_write_to s w = option_map (wr_bufs w) (rn_write_to s).
+  forall s w, w_script w = [] -> gr_style_write_to s w = option_map (wr_bufs w_write_all w) (rn_write_to s).
 Proof. exact translated_write_to_accept_all. Qed.
 
 (* ... and such a writer has then received the bytes `render()` shows *)
@@ -311,7 +320,7 @@ Theorem c05_translated_write_to_bytes :
 Proof. exact translated_write_to_bytes. Qed.
 
 Theorem c05_translated_write_reset_to_is_model :
-  forall s w, gr_style_write_reset_to s w = Some (wr_bufs w (rn_write_reset_to s)).
+  forall s w, gr_style_write_reset_to s w = Some (wr_bufs w_write_all w (rn_write_reset_to s)).
 Proof. exact translated_write_reset_to_is_model. Qed.
 
 (* the From impls of color.rs and `on` / `on_default` (values of Style: Model/Style.v) *)
